@@ -321,9 +321,7 @@ def treeKeys (norm : α → α) (ds : List (ClassDecl α)) : List α :=
   own ++ ((ds.filterMap (fun d => d.parent.map norm)).filter (fun k => !own.contains k)).eraseDups
 
 def keyIdx (keys : List α) (k : α) : Option Nat :=
-  match keys.findIdx? (· = k) with
-  | some i => some i
-  | none => none
+  if keys.idxOf k < keys.length then some (keys.idxOf k) else none
 
 def treeParent (norm : α → α) (ds : List (ClassDecl α)) (n : Nat) : Option Nat :=
   match ds[n]? with
